@@ -77,8 +77,14 @@ func ServiceRequest(pdu []byte, ue *tglib.RanUeContext, conn *sctp.SCTPConn, gnb
 	n, err := conn.Read(recvMsg)
 	ManageError("Error in service Request", err)
 
-	_, err = ngap.Decoder(recvMsg[:n])
+	msg, err := ngap.Decoder(recvMsg[:n])
 	ManageError("Error in service Request", err)
+
+	// The InitialUEMessage opened a new UE-associated NG connection: the AMF assigns its
+	// AMF-UE-NGAP-ID in the InitialContextSetupRequest (first IE, mandatory)
+	if msg.InitiatingMessage != nil && msg.InitiatingMessage.Value.InitialContextSetupRequest != nil {
+		ue.AmfUeNgapId = msg.InitiatingMessage.Value.InitialContextSetupRequest.ProtocolIEs.List[0].Value.AMFUENGAPID.Value
+	}
 
 	sendMsg, err = tglib.GetInitialContextSetupResponseForServiceRequest(ue.AmfUeNgapId,
 		ue.RanUeNgapId,
